@@ -30,6 +30,7 @@ class RunCtx:
         self.eval_budget = None  # evaluations left for the operation in progress (None = unlimited)
         self.eval_budgets = {}  # the same, per target tag (samplers that run interleaved in kernel tasks)
         self.eval_stalls = {}  # evaluation number -> cost multiplier (injected slow step)
+        self.eval_failures = {}  # target tag -> number of posterior evaluations until the posterior raises InjectedFailure
         self.monitors = []  # callables(kind, tag, theta) invoked at every evaluation
 
     def next_seq(self):
@@ -42,6 +43,10 @@ class RunCtx:
 
 class Runaway(Exception):
     """An operation used up its evaluation budget without completing (liveness guard)."""
+
+
+class InjectedFailure(Exception):
+    """Injected fault: the user's posterior raised (a domain error, an interrupt) in the middle of an operation."""
 
 
 class StepExhausted(Exception):
